@@ -793,6 +793,68 @@ func (e *Engine) registerIntrinsics() {
 		in[n] = func(c *PathCtx, fr *frame, args []Value) Value { return Tuple{args[0], noopCancel} }
 	}
 
+	// ---------------- milvus lock.KeyLock (keyed RW lock) ----------------
+	klPkg := "github.com/milvus-io/milvus/pkg/util/lock"
+	keyLockOf := func(c *PathCtx, recv Value, key Value) *lockState {
+		kt, ok := key.(*Term)
+		if !ok || !kt.Const {
+			panic(inconclusive("KeyLock with symbolic key"))
+		}
+		type klKey struct {
+			p *Value
+			k string
+		}
+		id := klKey{recv.(*Value), kt.S}
+		if v, ok := c.side[id]; ok {
+			return v.(*lockState)
+		}
+		ls := &lockState{}
+		c.side[id] = ls
+		return ls
+	}
+	in["(*"+klPkg+".KeyLock[K]).Lock"] = func(c *PathCtx, fr *frame, args []Value) Value {
+		ls := keyLockOf(c, args[0], args[1])
+		if c.exploring {
+			c.yield(false)
+		}
+		c.block(func() bool { return !ls.writer && ls.readers == 0 }, "KeyLock.Lock")
+		ls.writer, ls.owner = true, c.cur
+		return nil
+	}
+	in["(*"+klPkg+".KeyLock[K]).Unlock"] = func(c *PathCtx, fr *frame, args []Value) Value {
+		ls := keyLockOf(c, args[0], args[1])
+		ls.writer, ls.owner = false, nil
+		if c.exploring {
+			c.yield(false)
+		}
+		return nil
+	}
+	in["(*"+klPkg+".KeyLock[K]).RLock"] = func(c *PathCtx, fr *frame, args []Value) Value {
+		ls := keyLockOf(c, args[0], args[1])
+		if c.exploring {
+			c.yield(false)
+		}
+		c.block(func() bool { return !ls.writer }, "KeyLock.RLock")
+		ls.readers++
+		return nil
+	}
+	in["(*"+klPkg+".KeyLock[K]).RUnlock"] = func(c *PathCtx, fr *frame, args []Value) Value {
+		ls := keyLockOf(c, args[0], args[1])
+		if ls.readers > 0 {
+			ls.readers--
+		}
+		if c.exploring {
+			c.yield(false)
+		}
+		return nil
+	}
+	in[klPkg+".NewKeyLock"] = func(c *PathCtx, fr *frame, args []Value) Value {
+		pt := fr.fn.Signature.Results().At(0).Type().Underlying().(*types.Pointer)
+		p := new(Value)
+		*p = zero(pt.Elem())
+		return p
+	}
+
 	// ---------------- misc ----------------
 	in["runtime.Gosched"] = func(c *PathCtx, fr *frame, args []Value) Value { c.yield(false); return nil }
 	in["os.Getenv"] = func(c *PathCtx, fr *frame, args []Value) Value { return mkStr("") }
